@@ -1,6 +1,8 @@
 import FFSM2.Lemmas.Reach
 import FFSM2.Props.C17
 import FFSM2.Lemmas.BlindWorld
+import FFSM2.Lemmas.GuardCount
+import FFSM2.Props.C04
 /-!
 # Run-level theorems: the per-call theorems lifted to every history
 
@@ -366,6 +368,151 @@ theorem C16_history_logger_flags_irrelevant (cfg : Cfg) (beh : Beh) (ops ops' : 
   obtain ⟨b1, b2⟩ := C16_history_noninterference cfg beh ops'
   rw [h] at a1 a2
   exact ⟨a1.symm.trans b1, a2.symm.trans b2⟩
+
+/-! ### C04 on the event level: how often guards run within one API call -/
+
+theorem noGuard_applySurvivor (env : Env) (cur : Tr) : NoGuard (applySurvivor env cur) := by
+  unfold applySurvivor
+  intro s
+  dsimp only
+  split
+  · exact (Silent.seq (silent_modifyCore _ _) (noGuard_changeToRequested env cur)) s
+  · rfl
+
+/-- request processing delivers `exitGuard` exactly once per evaluated round and `entryGuard` at most once -/
+theorem processRequest_guard_counts (env : Env) (s : St) :
+    countM .exitGuard (guardSig (processRequest env s).2) = (processRounds env s).length ∧
+    countM .entryGuard (guardSig (processRequest env s).2) ≤ (processRounds env s).length := by
+  unfold processRequest processRounds
+  dsimp only
+  split
+  · have h := substLoop_guard_counts (guardRound env) 1 1 (guardRound_counts env) (substFuel env.cfg.L) {} s
+    have h2 : guardSig ((applySurvivor env (substLoop (guardRound env) (substFuel env.cfg.L) {} s).1.2 ⋙
+        finishProcessing env (substLoop (guardRound env) (substFuel env.cfg.L) {} s).1.2)
+        (substLoop (guardRound env) (substFuel env.cfg.L) {} s).1.1).2 = [] :=
+      guardSig_step_of_noGuard (Silent.seq (noGuard_applySurvivor env _) (silent_modifyCore _ _)) _
+    rw [guardSig_append, h2, List.append_nil]
+    simpa using h
+  · exact ⟨by simp [finishProcessing, modifyCore, countM], by simp [finishProcessing, modifyCore, countM]⟩
+
+theorem initialEnter_guard_counts (env : Env) (hL : env.cfg.L ≤ 255) (s : St) :
+    countM .exitGuard (guardSig (initialEnter env s).2) = 0 ∧
+    countM .entryGuard (guardSig (initialEnter env s).2) ≤ 2 * (env.cfg.L + 1) := by
+  unfold initialEnter
+  dsimp only
+  generalize hs0 : ({ s with core := (applyRequest {} 0 s.core).1 } : St) = s0
+  have h0 := entryGuardRound_counts env {} {} s0
+  have h1 := substLoop_guard_counts (entryGuardRound env) 0 2 (entryGuardRound_counts env) (substFuel env.cfg.L) {}
+    (entryGuardRound env {} {} s0).1
+  have hlen := C04_activation_bound env hL {} (entryGuardRound env {} {} s0).1
+  have h2 : guardSig (enterSurvivor env (substLoop (entryGuardRound env) (substFuel env.cfg.L) {} (entryGuardRound env {} {} s0).1).1.2
+      (substLoop (entryGuardRound env) (substFuel env.cfg.L) {} (entryGuardRound env {} {} s0).1).1.1).2 = [] := by
+    apply guardSig_step_of_noGuard
+    unfold enterSurvivor
+    exact Silent.seq (Silent.seq (silent_modifyCore _ _) (noGuard_deepEnter env _)) (silent_modifyCore _ _)
+  rw [guardSig_append, guardSig_append, h2, List.append_nil, countM_append, countM_append]
+  refine ⟨by rw [h0.1, h1.1]; simp, ?_⟩
+  have := h0.2
+  have := h1.2
+  omega
+
+/-- every accepted API call: at most `L` exit-guard evaluations and at most `2·(L+1)` entry-guard
+    evaluations (activation evaluates the root's and one state's entry guard per round, one round more
+    than the substitution limit; every other call at most `L`) -/
+theorem apiStep_guard_bound {w : World} {env : Env} (hL : env.cfg.L ≤ 255) {slot : Option Core} {c : Core} {f : Step}
+    (h : ApiStep env.cfg w env slot c f) :
+    countM .exitGuard (guardSig (f { core := c }).2) ≤ env.cfg.L ∧
+    countM .entryGuard (guardSig (f { core := c }).2) ≤ 2 * (env.cfg.L + 1) := by
+  have quiet : ∀ {g : Step}, NoGuard g → countM .exitGuard (guardSig (g { core := c }).2) ≤ env.cfg.L ∧
+      countM .entryGuard (guardSig (g { core := c }).2) ≤ 2 * (env.cfg.L + 1) := by
+    intro g hg
+    rw [guardSig_step_of_noGuard hg]
+    exact ⟨Nat.zero_le _, Nat.zero_le _⟩
+  have proc : ∀ s : St, countM .exitGuard (guardSig (processRequest env s).2) ≤ env.cfg.L ∧
+      countM .entryGuard (guardSig (processRequest env s).2) ≤ 2 * (env.cfg.L + 1) := by
+    intro s
+    obtain ⟨p1, p2⟩ := processRequest_guard_counts env s
+    have := C04_round_bound env hL s
+    exact ⟨by omega, by omega⟩
+  have cyc : ∀ pre mid post : Method, pre.isGuard = false → mid.isGuard = false → post.isGuard = false →
+      countM .exitGuard (guardSig (cycle env pre mid post { core := c }).2) ≤ env.cfg.L ∧
+      countM .entryGuard (guardSig (cycle env pre mid post { core := c }).2) ≤ 2 * (env.cfg.L + 1) := by
+    intro pre mid post h1 h2 h3
+    have hq : NoGuard (prelude env pre mid post) := by
+      apply silent_prelude methodPred_isGuard
+      intro m hm
+      rcases hm with rfl | rfl | rfl | rfl | rfl
+      · exact guard_excludes h1
+      · exact guard_excludes h2
+      · exact guard_excludes h3
+      · exact guard_excludes rfl
+      · exact guard_excludes rfl
+    rw [cycle_eq, guardSig_seq, guardSig_step_of_noGuard hq, List.nil_append]
+    exact proc _
+  cases h with
+  | constructManual => exact quiet (silent_skip _)
+  | constructAuto lg hm =>
+    obtain ⟨a, b⟩ := initialEnter_guard_counts env hL { core := initCore env.cfg lg }
+    exact ⟨by omega, b⟩
+  | enter c hm ha hv =>
+    obtain ⟨a, b⟩ := initialEnter_guard_counts env hL { core := c }
+    exact ⟨by omega, b⟩
+  | exit => exact quiet (noGuard_finalExit env)
+  | update => exact cyc _ _ _ rfl rfl rfl
+  | react => exact cyc _ _ _ rfl rfl rfl
+  | query =>
+    refine quiet ?_
+    unfold query
+    exact silent_dep fun s0 => Silent.seq (noGuard_deliver env .query rfl 255 {} {}) (noGuard_deliver env .query rfl _ {} {})
+  | change c d p =>
+    refine quiet ?_
+    intro s
+    show (logEv env s.core _).filter Ev.isGuard = []
+    exact filter_logEv methodPred_isGuard env _ _
+  | immediate c d p =>
+    rw [guardSig_seq]
+    have : guardSig (extChange env d p { core := c }).2 = [] :=
+      guardSig_of_noGuard (filter_logEv methodPred_isGuard env _ _)
+    rw [this, List.nil_append]
+    exact proc _
+  | status c id ok =>
+    refine quiet ?_
+    intro s
+    show (logEv env s.core _).filter Ev.isGuard = []
+    exact filter_logEv methodPred_isGuard env _ _
+  | planEdit c a hp => exact quiet (silent_applyAction methodPred_isGuard env 255 a)
+  | load => exact quiet (noGuard_load env _)
+  | replayEnter => exact quiet (noGuard_replayEnter env _)
+  | replayClear => exact quiet (silent_modifyCore _ _)
+  | replayTransition => exact quiet (noGuard_replayTransition env _)
+  | attachLogger => exact quiet (silent_modifyCore _ _)
+
+/-- **C04 over whole histories, on what user code observes.**  In every API call of every history, from any
+    world (in particular every reachable one), whatever the guards do: the own `exitGuard` of a state is
+    evaluated at most `SUBSTITUTION_LIMIT` times and own `entryGuard`s at most `2·(SUBSTITUTION_LIMIT+1)`
+    times (root + state, activation included) — the call returns after a bounded number of guard rounds. -/
+theorem C04_history_guard_bound (cfg : Cfg) (hL : cfg.L ≤ 255) (beh : Beh) (w : World) (k : Nat) (op : Op) :
+    countM .exitGuard (guardSig (stepAll cfg beh w k op).2) ≤ cfg.L ∧
+    countM .entryGuard (guardSig (stepAll cfg beh w k op).2) ≤ 2 * (cfg.L + 1) := by
+  have h := stepAll_shape cfg beh w k op
+  generalize stepAll cfg beh w k op = r at h
+  have nil : countM .exitGuard (guardSig []) ≤ cfg.L ∧ countM .entryGuard (guardSig []) ≤ 2 * (cfg.L + 1) :=
+    ⟨Nat.zero_le _, Nat.zero_le _⟩
+  cases h with
+  | copy src sc hop h1 h2 => exact nil
+  | step op' hs hd =>
+    cases hs with
+    | rejected name => exact nil
+    | call slot c f ret name hget hf =>
+      rw [onCore_snd, guardSig_append]
+      have : guardSig [Ev.api op.inst k name (apiObs cfg (f { core := c }).1.core (ret (f { core := c }).1.core))] = [] := rfl
+      rw [this, List.append_nil]
+      exact apiStep_guard_bound (env := ⟨cfg, beh, op.inst, k⟩) hL hf
+    | destroyManual c name hop hm hget => exact nil
+    | destroyAuto c name hm hget =>
+      rw [guardSig_append, guardSig_step_of_noGuard (noGuard_finalExit _)]
+      exact nil
+    | save c name o hget => exact nil
 
 /-- non-vacuity: two instances interleaved, a copy, a vetoed request; instance 0's path is paired and the
     hypotheses of `C01_history` hold for it -/
